@@ -1240,8 +1240,8 @@ func (t *State) recoverUnconfirmedTx(undoList []*pb.Transaction) {
 		}
 
 		// 检查交易是否已经被确认（被其他节点打包倒区块并广播了过来）
-		isConfirm, err := t.sctx.Ledger.HasTransaction(tx.Txid)
-		if err != nil && isConfirm {
+		// 只有在主干上的交易才算已确认, 分支区块里的交易还需要留在未确认池
+		if t.sctx.Ledger.IsTxInTrunk(tx.Txid) {
 			confirmCnt++
 			t.log.Info("this tx has been confirmed,ignore recover", "txid", hex.EncodeToString(tx.Txid))
 			continue
